@@ -9,6 +9,7 @@ import io
 import lzma
 import os.path
 import sys
+import zlib
 
 from gemato.exceptions import UnsupportedCompression
 
@@ -20,11 +21,14 @@ if sys.hexversion >= 0x03080000:
         lzma.LZMAError,
         # truncated gzip/bz2/lzma stream
         EOFError,
+        # damaged deflate data inside a gzip stream
+        zlib.error,
     )
 else:
     InvalidCompressedFileExceptions = (
         lzma.LZMAError,
         EOFError,
+        zlib.error,
     )
 
 
